@@ -1,5 +1,7 @@
 import Holpy.C10.Model
 import Holpy.C10.ProofsPolySem
+import Holpy.C10.ProofsNat
+import Holpy.C10.ProofsNF
 /-
 C10 — the nat Conv normaliser `norm_full` and the polynomial model: the normal form has the same
 polynomial as the term (values in ℤ under every valuation, then semantic canonicity).
